@@ -2,13 +2,13 @@
     agrees with the manual for all states, EXEC masks and admissible operands. *)
 From Coq Require Import ZArith List Bool Lia ZifyBool.
 Import ListNotations.
-From VIsa Require Import IsaState ExecImpl ExecSpec ExecImplV ExecSpecV ExecProofs ExecRows ExecVProofs ExecVRowsA ExecVRowsB1 ExecVRowsB2 ExecVRowsB3 ExecVRowsB4 ExecVRowsB5 ExecVRowsB6.
+From VIsa Require Import IsaState ExecImpl ExecSpec ExecImplV ExecSpecV ExecProofs ExecRows ExecVProofs ExecVRowsA ExecBrev ExecVProofs64 ExecVRows64 ExecVRowsB1 ExecVRowsB2 ExecVRowsB3 ExecVRowsB4 ExecVRowsB5 ExecVRowsB6.
 Open Scope Z_scope.
 
 Definition vrows (a : arch) : list (format * Z) :=
   match a with
-  | GCN3 => [(F_VOP2, 0); (F_VOP2, 6); (F_VOP2, 8); (F_VOP2, 12); (F_VOP2, 13); (F_VOP2, 14); (F_VOP2, 15); (F_VOP2, 16); (F_VOP2, 17); (F_VOP2, 18); (F_VOP2, 19); (F_VOP2, 20); (F_VOP2, 21); (F_VOP2, 25); (F_VOP2, 26); (F_VOP2, 27); (F_VOP2, 28); (F_VOP2, 29); (F_VOP2, 30); (F_VOP1, 1); (F_VOP1, 43); (F_VOPC, 193); (F_VOPC, 195); (F_VOPC, 196); (F_VOPC, 197); (F_VOPC, 198); (F_VOPC, 201); (F_VOPC, 202); (F_VOPC, 203); (F_VOPC, 204); (F_VOPC, 205); (F_VOPC, 206); (F_VOP3A, 193); (F_VOP3A, 195); (F_VOP3A, 196); (F_VOP3A, 198); (F_VOP3A, 201); (F_VOP3A, 202); (F_VOP3A, 203); (F_VOP3A, 204); (F_VOP3A, 205); (F_VOP3A, 206); (F_VOP3A, 256); (F_VOP3A, 450); (F_VOP3A, 451); (F_VOP3A, 456); (F_VOP3A, 457); (F_VOP3A, 465); (F_VOP3A, 466); (F_VOP3A, 468); (F_VOP3A, 469); (F_VOP3A, 471); (F_VOP3A, 472); (F_VOP3A, 645); (F_VOP3A, 646); (F_VOP3B, 281); (F_VOP3B, 282); (F_VOP3B, 283); (F_VOP3B, 284); (F_VOP3B, 285); (F_VOP3B, 286)]
-  | CDNA3 => [(F_VOP2, 0); (F_VOP2, 6); (F_VOP2, 8); (F_VOP2, 12); (F_VOP2, 13); (F_VOP2, 14); (F_VOP2, 15); (F_VOP2, 16); (F_VOP2, 17); (F_VOP2, 18); (F_VOP2, 19); (F_VOP2, 20); (F_VOP2, 21); (F_VOP2, 25); (F_VOP2, 26); (F_VOP2, 27); (F_VOP2, 28); (F_VOP2, 29); (F_VOP2, 30); (F_VOP2, 52); (F_VOP2, 53); (F_VOP2, 54); (F_VOP1, 1); (F_VOP1, 43); (F_VOP1, 45); (F_VOPC, 193); (F_VOPC, 195); (F_VOPC, 196); (F_VOPC, 197); (F_VOPC, 198); (F_VOPC, 201); (F_VOPC, 202); (F_VOPC, 203); (F_VOPC, 204); (F_VOPC, 205); (F_VOPC, 206); (F_VOP3A, 193); (F_VOP3A, 195); (F_VOP3A, 196); (F_VOP3A, 198); (F_VOP3A, 201); (F_VOP3A, 202); (F_VOP3A, 203); (F_VOP3A, 204); (F_VOP3A, 205); (F_VOP3A, 206); (F_VOP3A, 256); (F_VOP3A, 450); (F_VOP3A, 451); (F_VOP3A, 456); (F_VOP3A, 457); (F_VOP3A, 465); (F_VOP3A, 466); (F_VOP3A, 468); (F_VOP3A, 469); (F_VOP3A, 471); (F_VOP3A, 472); (F_VOP3A, 645); (F_VOP3A, 646); (F_VOP3A, 509); (F_VOP3A, 510); (F_VOP3A, 511); (F_VOP3A, 512); (F_VOP3B, 281); (F_VOP3B, 282); (F_VOP3B, 283); (F_VOP3B, 284); (F_VOP3B, 285); (F_VOP3B, 286)]
+  | GCN3 => [(F_VOP2, 0); (F_VOP2, 6); (F_VOP2, 8); (F_VOP2, 12); (F_VOP2, 13); (F_VOP2, 14); (F_VOP2, 15); (F_VOP2, 16); (F_VOP2, 17); (F_VOP2, 18); (F_VOP2, 19); (F_VOP2, 20); (F_VOP2, 21); (F_VOP2, 25); (F_VOP2, 26); (F_VOP2, 27); (F_VOP2, 28); (F_VOP2, 29); (F_VOP2, 30); (F_VOP1, 1); (F_VOP1, 43); (F_VOP1, 44); (F_VOPC, 193); (F_VOPC, 195); (F_VOPC, 196); (F_VOPC, 197); (F_VOPC, 198); (F_VOPC, 201); (F_VOPC, 202); (F_VOPC, 203); (F_VOPC, 204); (F_VOPC, 205); (F_VOPC, 206); (F_VOP3A, 193); (F_VOP3A, 195); (F_VOP3A, 196); (F_VOP3A, 198); (F_VOP3A, 201); (F_VOP3A, 202); (F_VOP3A, 203); (F_VOP3A, 204); (F_VOP3A, 205); (F_VOP3A, 206); (F_VOP3A, 256); (F_VOP3A, 450); (F_VOP3A, 451); (F_VOP3A, 456); (F_VOP3A, 457); (F_VOP3A, 465); (F_VOP3A, 466); (F_VOP3A, 468); (F_VOP3A, 469); (F_VOP3A, 471); (F_VOP3A, 472); (F_VOP3A, 645); (F_VOP3A, 646); (F_VOP3B, 281); (F_VOP3B, 282); (F_VOP3B, 283); (F_VOP3B, 284); (F_VOP3B, 285); (F_VOP3B, 286)]
+  | CDNA3 => [(F_VOP2, 0); (F_VOP2, 6); (F_VOP2, 8); (F_VOP2, 12); (F_VOP2, 13); (F_VOP2, 14); (F_VOP2, 15); (F_VOP2, 16); (F_VOP2, 17); (F_VOP2, 18); (F_VOP2, 19); (F_VOP2, 20); (F_VOP2, 21); (F_VOP2, 25); (F_VOP2, 26); (F_VOP2, 27); (F_VOP2, 28); (F_VOP2, 29); (F_VOP2, 30); (F_VOP2, 52); (F_VOP2, 53); (F_VOP2, 54); (F_VOP1, 1); (F_VOP1, 43); (F_VOP1, 44); (F_VOP1, 45); (F_VOPC, 193); (F_VOPC, 195); (F_VOPC, 196); (F_VOPC, 197); (F_VOPC, 198); (F_VOPC, 201); (F_VOPC, 202); (F_VOPC, 203); (F_VOPC, 204); (F_VOPC, 205); (F_VOPC, 206); (F_VOP3A, 193); (F_VOP3A, 195); (F_VOP3A, 196); (F_VOP3A, 198); (F_VOP3A, 201); (F_VOP3A, 202); (F_VOP3A, 203); (F_VOP3A, 204); (F_VOP3A, 205); (F_VOP3A, 206); (F_VOP3A, 256); (F_VOP3A, 450); (F_VOP3A, 451); (F_VOP3A, 456); (F_VOP3A, 457); (F_VOP3A, 465); (F_VOP3A, 466); (F_VOP3A, 468); (F_VOP3A, 469); (F_VOP3A, 471); (F_VOP3A, 472); (F_VOP3A, 645); (F_VOP3A, 646); (F_VOP3A, 509); (F_VOP3A, 510); (F_VOP3A, 511); (F_VOP3A, 512); (F_VOP3B, 281); (F_VOP3B, 282); (F_VOP3B, 283); (F_VOP3B, 284); (F_VOP3B, 285); (F_VOP3B, 286)]
   end.
 
 Lemma row_agree : forall a f op, row_ok a f op ->
@@ -53,6 +53,7 @@ Proof.
   - row_case r_g_vop2_30.
   - row_case r_g_vop1_1.
   - row_case r_g_vop1_43.
+  - row_case r_g_vop1_44.
   - row_case r_g_vopc_193.
   - row_case r_g_vopc_195.
   - row_case r_g_vopc_196.
@@ -117,6 +118,7 @@ Proof.
   - row_case r_c_vop2_54.
   - row_case r_c_vop1_1.
   - row_case r_c_vop1_43.
+  - row_case r_c_vop1_44.
   - row_case r_c_vop1_45.
   - row_case r_c_vopc_193.
   - row_case r_c_vopc_195.
@@ -206,10 +208,59 @@ Proof.
   eapply state_eq_trans; [exact G3|]. apply state_eq_sym; exact C3.
 Qed.
 
+(** rows with 64-bit operands (both ALUs): 64-bit compares, v_mad_u64_u32,
+    v_lshlrev_b64, v_ashrrev_i64 *)
+Definition vrows64 : list (format * Z) :=
+  [(F_VOPC, 232); (F_VOPC, 233); (F_VOPC, 234); (F_VOPC, 235); (F_VOPC, 236); (F_VOPC, 237); (F_VOPC, 238);
+   (F_VOPC, 239); (F_VOP3A, 233); (F_VOP3A, 488); (F_VOP3A, 655); (F_VOP3A, 657)].
+Definition modes_of (f : format) (op : Z) : omode * omode * omode :=
+  match f, op with
+  | F_VOP3A, 488 => (M32, M32, M64)
+  | F_VOP3A, 655 | F_VOP3A, 657 => (M64lo, M64, M32)
+  | _, _ => (M64, M64, M32)
+  end.
+
+Lemma row_agree64 : forall a f op m0 m1 m2, row_ok64 m0 m1 m2 a f op ->
+  (exists d, vdesc_of a f op = Some d) -> (exists r, vrow_of a f op = Some r) ->
+  ~ (f = F_VOP1 /\ op = 2) ->
+  forall st i, i_fmt i = f -> i_op i = op -> wf st -> 0 <= i_lit i < W32 ->
+    (forall d r, vdesc_of a f op = Some d -> vrow_of a f op = Some r -> vadm64 m0 m1 m2 d r i) -> agree_v a st i.
+Proof.
+  intros a f op m0 m1 m2 Hok (d & Hd) (r & Hr) Hn st i Hf Ho Hwf Hl Hadm. subst f op.
+  apply (vglue64 a st i d r m0 m1 m2); auto.
+Qed.
+
+Ltac row_case64 x L := eapply (row_agree64 _ _ _ _ _ _ L); eauto;
+  [destruct x; eexists; reflexivity | destruct x; eexists; reflexivity
+  | intros [E1 E2]; try discriminate E1; try discriminate E2].
+
+Theorem vector_agree64 : forall a st i, In (i_fmt i, i_op i) vrows64 -> wf st -> 0 <= i_lit i < W32 ->
+  (forall d r, vdesc_of a (i_fmt i) (i_op i) = Some d -> vrow_of a (i_fmt i) (i_op i) = Some r ->
+     let '(m0, m1, m2) := modes_of (i_fmt i) (i_op i) in vadm64 m0 m1 m2 d r i) ->
+  agree_v a st i.
+Proof.
+  intros a st i Hin Hwf Hl Hadm.
+  remember (i_fmt i) as f eqn:Ef. remember (i_op i) as op eqn:Eo. symmetry in Ef, Eo.
+  unfold vrows64 in Hin; cbn [In] in Hin.
+  repeat (destruct Hin as [Hin|Hin]; [injection Hin as <- <-|]); try contradiction; cbn [modes_of] in Hadm.
+  - row_case64 a (r64_vopc a 232 ltac:(cbn; tauto)).
+  - row_case64 a (r64_vopc a 233 ltac:(cbn; tauto)).
+  - row_case64 a (r64_vopc a 234 ltac:(cbn; tauto)).
+  - row_case64 a (r64_vopc a 235 ltac:(cbn; tauto)).
+  - row_case64 a (r64_vopc a 236 ltac:(cbn; tauto)).
+  - row_case64 a (r64_vopc a 237 ltac:(cbn; tauto)).
+  - row_case64 a (r64_vopc a 238 ltac:(cbn; tauto)).
+  - row_case64 a (r64_vopc a 239 ltac:(cbn; tauto)).
+  - row_case64 a (r64_vop3a_233 a).
+  - row_case64 a (r64_vop3a_488 a).
+  - row_case64 a (r64_vop3a_655 a).
+  - row_case64 a (r64_vop3a_657 a).
+Qed.
+
 (** every (format, opcode) row covered by an [impl_eq_spec_*] theorem, per ALU
     (printed by ./check C03 to classify the opcode closure of shipped kernels) *)
 Definition proved_rows (a : arch) : list (format * Z) :=
   map (pair F_SOP2) (sop2_rows32 a ++ sop2_rows64 a) ++
-  map (pair F_SOP1) (sop1_rows32 a ++ [1; 28] ++ saveexec_ops) ++
+  map (pair F_SOP1) (sop1_rows32 a ++ [1; 8; 28] ++ saveexec_ops) ++
   map (pair F_SOPC) (sopc_ops a) ++ map (pair F_SOPK) sopk_ops ++ map (pair F_SOPP) sopp_ops ++
-  (F_VOP1, 2) :: vrows a.
+  (F_VOP1, 2) :: vrows a ++ vrows64.
